@@ -55,6 +55,14 @@ NQR == ColP(<<"n", "q", "r">>)
 Items == {Star, Item(A, ""), Item(A, "x"), Item(NP, ""), Item(NP, "a"), Item(M, ""), Item(Bin("+", A, LN(1)), "b"), Item(NQR, ""),
           Item(Bin("*", B, LN(2)), "y"), Item(LS(<<104, 105>>), "s")}
 Lists == SeqsFromTo(Items, 1, 3)
+\* FUSE: the keys of an object blended into the row (n = {p, q}), under a prefix when the item has an alias; items before
+\* and after it that carry one of those names (later wins); FUSE of a missing column is an ordinary NULL column
+FuseI(e, as) == Item([k |-> "fn", f |-> "fuse", args |-> <<e>>], as)
+FuseItems == {FuseI(Col("n"), ""), FuseI(Col("n"), "z"), FuseI(ColP(<<"n", "q">>), ""), FuseI(M, "z")}
+Others == {Item(A, "p"), Item(A, "z.p"), Item(B, "r"), Item(NP, "q")}
+FuseLists == {<<f>> : f \in FuseItems} \cup {<<f, x>> : f \in FuseItems, x \in Others} \cup {<<x, f>> : f \in FuseItems, x \in Others}
+             \cup {<<Star, f>> : f \in FuseItems} \cup {<<f, Star>> : f \in FuseItems}
+             \cup {<<FuseI(Col("n"), ""), FuseI(ColP(<<"n", "q">>), "p")>>, <<FuseI(ColP(<<"n", "q">>), "n"), FuseI(Col("n"), "")>>}
 Wheres == {None, CmpE(">", B, LN(1))}
 
 Defined(q, doc) == ~IsErr(RunQ(q, doc))
@@ -67,6 +75,8 @@ Init ==
             /\ Defined(cs.q, cs.doc)
        \/ \E tbl \in SeqsUpTo(Rows, MaxRows) : \E sl \in Lists : \E w \in Wheres :
             /\ cs = [fam |-> "list", q |-> [BaseQ EXCEPT !.sel = sl, !.where = w], doc |-> Doc1("t", tbl)]
+       \/ \E tbl \in SeqsUpTo(Rows, MaxRows) : \E sl \in FuseLists : \E w \in Wheres :
+            /\ cs = [fam |-> "fuse", q |-> [BaseQ EXCEPT !.sel = sl, !.where = w], doc |-> Doc1("t", tbl)]
     /\ EngineInit
 
 Next == EngineNext
@@ -83,7 +93,8 @@ Total == Done => ~IsErr(res)
 OnePerRow == HasStage("select") => Len(Out) = Len(Kept)
 
 \* keys are exactly the aliases / column names, plus all source keys for *
-NamesOf(row) == {ItemName(Sel[i]) : i \in {j \in DOMAIN Sel : Sel[j].k = "item"}} \cup
+FuseNames(it, row) == LET o == PathGet(row, it.e.args[1].p) IN IF IsObj(o) THEN {FuseName(it, k) : k \in Keys(o)} ELSE {ItemName(it)}
+NamesOf(row) == UNION {IF IsFuse(Sel[i]) THEN FuseNames(Sel[i], row) ELSE {ItemName(Sel[i])} : i \in {j \in DOMAIN Sel : Sel[j].k = "item"}} \cup
                 (IF \E i \in DOMAIN Sel : Sel[i].k = "star" THEN Keys(row) ELSE {})
 ExactKeys == HasStage("select") => \A i \in DOMAIN Out : Keys(Out[i]) = NamesOf(Kept[i])
 
